@@ -51,8 +51,11 @@ def run(ctx):
     recs.sort(key=lambda c: json.dumps(c, sort_keys=True))
     if not thorough:
         # every shape other than the big join2 product in full, join2 sampled
-        small = [c for c in recs if c['shape'] != 'join2']
-        big = [c for c in recs if c['shape'] == 'join2']
+        def bare(c):
+            # at most one optional clause present
+            return (c['where'] != 'none') + (c['order'] != 'none') + (tuple(c['lim']) != ('none', 'none')) <= 1
+        small = [c for c in recs if c['shape'] != 'join2' or bare(c)]
+        big = [c for c in recs if c['shape'] == 'join2' and not bare(c)]
         rng.shuffle(big)
         recs = small + big[:500]
     sqls = []
@@ -93,6 +96,8 @@ def run(ctx):
                 continue
             asg = next(a for vv, a in outcomes if vv == v)
             shape, kind = classify(c['plan']['orig'])
+            if (c.get('rec') or {}).get('shape') == 'api':
+                shape, kind = 'api', c['rec']['tgt'] + ('+limit' if c['rec']['lim'][0] != 'none' else '')
             ctx.violation('%s:%s:%s' % (v, shape, kind),
                           'carrying out the plan does not return what the original query returns on some database',
                           {'sql': c['sql'], 'tables': c['plan']['tables'], 'database': asg, 'plan_steps': c['kinds'],
